@@ -1,7 +1,10 @@
 (* C06: restraints implement their documented potentials and time schedules.
-   Statements only; proofs in RestraintProofs.v, model in RestraintModel.v. *)
+   Statements only; model in RestraintModel.v, proofs in RestraintSched.v (schedules), RestraintTI.v (staged TI),
+   RestraintWork.v (accumulated work), RestraintHist.v (histogram restraint), RestraintProofs.v (potentials). *)
 From Coq Require Import ZArith List Bool Reals QArith Lia Lra.
-From CV Require Import Base.Num Base.RNum C06.RestraintModel C06.RestraintProofs.
+From Coquelicot Require Import Coquelicot.
+From CV Require Import Base.Num Base.RNum C06.RestraintModel C06.RestraintSched C06.RestraintTI C06.RestraintWork
+  C06.RestraintHist C06.RestraintProofs C18.ValueModel C18.ValueProofs C06.RestraintManifold.
 Import ListNotations.
 
 (* ---- closed-form potentials (R instance of the model) ------------------------------------------ *)
@@ -27,6 +30,30 @@ Theorem C06_harmonic_nonperiodic : forall (k : R) (v : var) (x c : R),
 Proof. exact harmonic_nonperiodic. Qed.
 Print Assumptions C06_harmonic_nonperiodic.
 
+(* Harmonic restraint on manifold-valued variables (squared distances of coq/C18/ValueModel.v, which C18 proves to be
+   metrics): the energy is k/(2 w^2) x the squared geodesic distance - the angle theta between unit vectors ... *)
+Theorem C06_harmonic_unit_vector : forall (k w : R) (a b : vec3), (w <> 0)%R -> is_unit a -> is_unit b ->
+  exists th : R, (0 <= th <= PI /\ cos th = v3dot Rops a b /\
+    harm_potential_d2 Rops k w (uv_dist2 Rops a b) = k / (2 * w ^ 2) * th ^ 2)%R.
+Proof. exact harm_unit_vector. Qed.
+Print Assumptions C06_harmonic_unit_vector.
+
+(* ... the angle omega in [0, pi/2] with cos omega = |q1.q2| between two orientations (half the rotation angle; q and -q
+   are the same orientation) ... *)
+Theorem C06_harmonic_quaternion : forall (k w : R) (a b : quat), (w <> 0)%R -> q_unit a -> q_unit b ->
+  exists om : R, (0 <= om <= PI / 2 /\ cos om = Rabs (qdot Rops a b) /\
+    harm_potential_d2 Rops k w (q_dist2 Rops PI a b) = k / (2 * w ^ 2) * om ^ 2)%R.
+Proof. exact harm_quaternion. Qed.
+Print Assumptions C06_harmonic_quaternion.
+
+(* ... and the Euclidean distance of 3-vectors *)
+Theorem C06_harmonic_vector3 : forall (k w : R) (a b : vec3), (w <> 0)%R ->
+  harm_potential_d2 Rops k w (v3_dist2 Rops a b) =
+  let '(ax, ay, az) := a in let '(bx, by_, bz) := b in
+  (k / (2 * w ^ 2) * ((ax - bx) ^ 2 + (ay - by_) ^ 2 + (az - bz) ^ 2))%R.
+Proof. exact harm_vector3. Qed.
+Print Assumptions C06_harmonic_vector3.
+
 Theorem C06_linear : forall (k : R) (v : var) (x c : R), (v_width v <> 0)%R ->
   (lin_potential Rops k v x c = k / v_width v * (x - c) /\ lin_force Rops k v = - (k / v_width v) /\
    lin_dUdk Rops v x c = (x - c) / v_width v)%R.
@@ -48,6 +75,25 @@ Theorem C06_walls_nonperiodic : forall (k lk uk : R) (hl hu : bool) (v : var) (x
 Proof. exact walls_nonperiodic. Qed.
 Print Assumptions C06_walls_nonperiodic.
 
+(* Two walls on a PERIODIC variable (period P, L < U, U - L < P), dL and dU the shortest-image signed distances
+   of x to the walls.  Inside the walls (an image of x lies in [L, U]) there is no energy and no force.  Outside,
+   the CLOSER wall (in shortest-image distance) acts: x is then on its outer side (dL < 0, resp. 0 < dU) and the
+   energy is the half-harmonic k*(lk|uk)/(2 w^2) d^2 in that distance, the force minus its derivative. *)
+Theorem C06_walls_closest : forall (k lk uk : R) (hl hu : bool) (v : var) (x L U : R),
+  (v_width v <> 0)%R -> v_periodic v = true -> (0 < v_period v)%R -> (L < U)%R -> (U - L < v_period v)%R ->
+  let dL := RestraintModel.pdiff Rops v x L in let dU := RestraintModel.pdiff Rops v x U in
+  ((exists n : Z, (L <= x - IZR n * v_period v <= U)%R) ->
+     (walls_potential Rops k lk uk hl hu v x L U = 0 /\ walls_force Rops k lk uk hl hu v x L U = 0)%R) /\
+  ((~ exists n : Z, (L <= x - IZR n * v_period v <= U)%R) ->
+     ((dL ^ 2 < dU ^ 2)%R -> (dL < 0 /\
+        walls_potential Rops k lk uk hl hu v x L U = k * lk / (2 * v_width v ^ 2) * dL ^ 2 /\
+        walls_force Rops k lk uk hl hu v x L U = - (k * lk / v_width v ^ 2) * dL)%R) /\
+     ((dU ^ 2 <= dL ^ 2)%R -> (0 < dU /\
+        walls_potential Rops k lk uk hl hu v x L U = k * uk / (2 * v_width v ^ 2) * dU ^ 2 /\
+        walls_force Rops k lk uk hl hu v x L U = - (k * uk / v_width v ^ 2) * dU)%R)).
+Proof. exact walls_periodic. Qed.
+Print Assumptions C06_walls_closest.
+
 (* the rescaling done at initialisation keeps the configured lower/upper wall constants *)
 Theorem C06_walls_constants : forall lk uk : R, (0 < lk)%R -> (0 < uk)%R ->
   let '(k, a, b) := walls_init Rops true true lk uk in (k * a = lk /\ k * b = uk /\ 0 < k)%R.
@@ -68,10 +114,26 @@ Theorem C06_abmd_ratchet : forall (k stop : R) (dec : bool) (s : abmd_state) (x 
 Proof. exact abmd_ratchet_stmt. Qed.
 Print Assumptions C06_abmd_ratchet.
 
+(* histogramRestraint on M scalar values xs (grid points xi_g = lower + (g + 1/2) width, reference histogram refp):
+   the energy is 1/2 (k M) sum_g (h(xi_g) - h0_g)^2 with h(xi) = 1/(M sqrt(2 pi sigma^2)) sum_i exp(-(xi - x_i)^2/(2 sigma^2))
+   (hist_h), and the force on each value is MINUS THE DERIVATIVE of that energy with respect to that value.
+   NOTE the factor: the documented potential is 1/2 k INTEGRAL (h - h0)^2 dxi ~ 1/2 k width sum_g (...)^2; the code (and
+   hence this closed form) has k M in place of k width (recorded finding potential:histogram:energy-scale). *)
+Theorem C06_histogram_restraint : forall (k sigma lower width : R) (refp pre post : list R) (x : R), (0 < sigma)%R ->
+  let xs := pre ++ x :: post in
+  hist_energy Rops k PI sigma lower width refp xs =
+    Rsum (map2 (fun xg r => 1 / 2 * (k * INR (length xs)) * (hist_h sigma xs xg - r) ^ 2)%R
+               (hist_grid Rops lower width (length refp)) refp) /\
+  is_derive (fun y => hist_energy Rops k PI sigma lower width refp (pre ++ y :: post)) x
+            (- nth (length pre) (hist_forces Rops k PI sigma lower width refp xs) 0)%R.
+Proof. exact hist_statement. Qed.
+Print Assumptions C06_histogram_restraint.
+
 (* ---- schedules: functions of the step number alone, for every segmentation --------------------- *)
-(* A history is any non-empty list of events: plain engine steps, steps recomputed at an in-process run
-   boundary, steps recomputed after save / new process / load.  These theorems hold for EVERY numeric
-   carrier (in particular R and IEEE doubles): the parameters are the same expression of the step number. *)
+(* A history is any non-empty list of events: plain engine steps, steps computed again at an in-process run
+   boundary (simulation_continuing), steps computed again after save / new process / load (step_relative = 0).
+   These theorems hold for EVERY numeric carrier (in particular R and IEEE doubles): the parameters are the same
+   expression of the step number whatever the segmentation. *)
 
 (* the step number after a history = start + number of plain steps after the first event *)
 Theorem C06_step_number : forall T (O : NumOps T) (c : rcfg) e evs,
@@ -95,91 +157,88 @@ Theorem C06_k_schedule_any_segmentation : forall T (O : NumOps T) (c : rcfg) (ev
 Proof. exact @k_schedule_continuous. Qed.
 Print Assumptions C06_k_schedule_any_segmentation.
 
-(* Staged force constant.  FULL STATEMENT (false of the code, see the two refutations):
-     forall c evs, c_chg_k c = true -> 0 < c_nstages c -> 0 < c_nsteps c -> evs <> [] ->
-       s_stage (run c evs) = min nstages ((t - t0)/N)  /\  s_k (run c evs) = closed_k_staged c t,   t = m_it (run c evs).
-   It holds when the run is one segment (no run boundary, no restart): *)
-Theorem C06_k_schedule_staged_partial : forall T (O : NumOps T) (c : rcfg) (evs : list event),
-  c_chg_k c = true -> c_chg_centers c = false -> (0 < c_nstages c)%Z -> (0 < c_nsteps c)%Z ->
-  Forall is_step evs -> evs <> [] ->
+(* staged force constant (targetNumStages or lambdaSchedule, with decoupling / lambdaExponent): after ANY history
+   stage = min(nstages, (t - t0)/N) and k = k0 + (k1 - k0) lambda_stage^e *)
+Theorem C06_k_schedule_staged : forall T (O : NumOps T) (c : rcfg) (evs : list event),
+  c_chg_k c = true -> c_chg_centers c = false -> (0 < c_nstages c)%Z -> (0 < c_nsteps c)%Z -> evs <> [] ->
   s_stage (m_st (run O c evs)) = stage_closed c (m_it (run O c evs)) /\
-  s_k (m_st (run O c evs)) = closed_k_staged O c (m_it (run O c evs)).
-Proof. exact @k_schedule_staged_one_segment. Qed.
-Print Assumptions C06_k_schedule_staged_partial.
+  s_k (m_st (run O c evs)) = closed_k_staged O c (m_it (run O c evs)) /\
+  s_first (m_st (run O c evs)) = c_it0 c.
+Proof. exact @k_schedule_staged. Qed.
+Print Assumptions C06_k_schedule_staged.
 
-(* ... and fails when a run boundary, or a restart, falls on the last step of a stage: the stage advances twice *)
-Theorem C06_k_schedule_staged_refuted_boundary :
-  exists (c : @rcfg Q) evs, c_chg_k c = true /\ c_chg_centers c = false /\ (0 < c_nstages c)%Z /\ (0 < c_nsteps c)%Z /\ evs <> [] /\
-    has_restart evs = false /\
-    Qeq_bool (s_k (m_st (run Qops c evs))) (closed_k_staged Qops c (m_it (run Qops c evs))) = false.
-Proof. exact k_schedule_staged_refuted_boundary. Qed.
-Print Assumptions C06_k_schedule_staged_refuted_boundary.
+(* staged centres, every targetNumSteps >= 1: after ANY history the centres have moved
+   nmoves(t) = min(nstages + 1, (t - t0 - 1)/N + 1) times (0 at t0) and are at wrap(interpolate c0 c1 ((nmoves - 1)/nstages)) *)
+Theorem C06_center_schedule_staged : forall T (O : NumOps T) (c : rcfg) (evs : list event),
+  c_chg_centers c = true -> c_chg_k c = false -> (0 < c_nstages c)%Z -> (0 < c_nsteps c)%Z -> evs <> [] ->
+  s_centers (m_st (run O c evs)) = closed_centers_staged O c (m_it (run O c evs)) /\
+  s_stage (m_st (run O c evs)) = nmoves c (m_it (run O c evs)) /\
+  s_first (m_st (run O c evs)) = c_it0 c.
+Proof. exact @center_schedule_staged. Qed.
+Print Assumptions C06_center_schedule_staged.
 
-Theorem C06_k_schedule_staged_refuted_restart :
-  exists (c : @rcfg Q) evs, c_chg_k c = true /\ c_chg_centers c = false /\ (0 < c_nstages c)%Z /\ (0 < c_nsteps c)%Z /\ evs <> [] /\
-    has_boundary evs = false /\
-    Qeq_bool (s_k (m_st (run Qops c evs))) (closed_k_staged Qops c (m_it (run Qops c evs))) = false.
-Proof. exact k_schedule_staged_refuted_restart. Qed.
-Print Assumptions C06_k_schedule_staged_refuted_restart.
+(* ---- accumulated work (R instance) ------------------------------------------------------------- *)
+(* steps_of c evs = the steps of the history with their values, each step once (run boundaries and restarts
+   compute a step again and add nothing).  W = sum over the steps s of dU/dk(x_s) (k(s) - k(s-1)), k the schedule. *)
+Theorem C06_acc_work_k_is_sum : forall (c : @rcfg R) (evs : list event),
+  c_chg_k c = true -> c_chg_centers c = false -> c_nstages c = 0%Z -> (0 <= c_nsteps c)%Z -> c_acc_work c = true ->
+  s_W (m_st (run Rops c evs)) =
+  fold_left Rplus
+    (map (fun p => dUdk_sum Rops c (init_state Rops c) (snd p) * (closed_k Rops c (fst p) - closed_k Rops c (fst p - 1)))%R
+         (steps_of c evs)) 0%R.
+Proof. exact work_k_sum. Qed.
+Print Assumptions C06_acc_work_k_is_sum.
 
-(* Staged centres.  FULL STATEMENT (false of the code):
-     forall c evs, c_chg_centers c = true -> 0 < c_nstages c -> 0 < c_nsteps c -> evs <> [] ->
-       s_centers (run c evs) = closed_centers_staged c (m_it (run c evs)).
-   Refuted by a run boundary on the first step of a stage, and by targetNumSteps = 1 in a single segment.
-   (The _partial version - N >= 2, no run boundary on a step = 1 mod N - is checked by the oracle of the
-   check on every generated history; it is not proved yet, see NOTES.md.) *)
-Theorem C06_center_schedule_staged_refuted_boundary :
-  exists (c : @rcfg Q) evs, c_chg_centers c = true /\ (0 < c_nstages c)%Z /\ (2 <= c_nsteps c)%Z /\ evs <> [] /\
-    s_centers (m_st (run Qops c evs)) <> closed_centers_staged Qops c (m_it (run Qops c evs)).
-Proof. exact center_schedule_staged_refuted_boundary. Qed.
-Print Assumptions C06_center_schedule_staged_refuted_boundary.
+(* W = sum over the steps s <= t0 + N of sum_i F_i(s) d_i(s): F the restraint force at the scheduled centres of
+   step s, d_i(s) the closest-image difference between the scheduled (unwrapped) centres of steps s and s - 1 *)
+Theorem C06_acc_work_centers_is_sum : forall (c : @rcfg R) (evs : list event),
+  c_chg_centers c = true -> c_chg_k c = false -> c_nstages c = 0%Z -> (0 <= c_nsteps c)%Z -> c_acc_work c = true ->
+  List.Forall var_ok (c_vars c) ->
+  s_W (m_st (run Rops c evs)) = fold_left Rplus (map (wc_term c) (steps_of c evs)) 0%R.
+Proof. exact work_centers_sum. Qed.
+Print Assumptions C06_acc_work_centers_is_sum.
 
-Theorem C06_center_schedule_staged_refuted_N1 :
-  exists (c : @rcfg Q) evs, c_chg_centers c = true /\ (0 < c_nstages c)%Z /\ c_nsteps c = 1%Z /\ evs <> [] /\
-    Forall (fun e => match e with EStep _ => True | _ => False end) evs /\
-    s_centers (m_st (run Qops c evs)) <> closed_centers_staged Qops c (m_it (run Qops c evs)).
-Proof. exact center_schedule_staged_refuted_N1. Qed.
-Print Assumptions C06_center_schedule_staged_refuted_N1.
+(* ... and the closest-image difference is the plain difference whenever the centre moves by less than half a period per step *)
+Theorem C06_acc_work_small_increment : forall (v : @var R) (a b : R), var_ok v ->
+  (v_periodic v = true -> (- v_period v / 2 <= a - b < v_period v / 2)%R) -> RestraintModel.pdiff Rops v a b = (a - b)%R.
+Proof. exact pdiff_small. Qed.
+Print Assumptions C06_acc_work_small_increment.
 
-(* ---- accumulated work and TI ------------------------------------------------------------------- *)
-(* FULL STATEMENT (C06_acc_work_is_sum): W(t) = sum over the steps s <= t of dU/dk(s) (k(s) - k(s-1))
-   [resp. F(s).(c(s) - c(s-1))].  False of the code in two ways: *)
+(* ---- staged TI (every carrier, every segmentation) --------------------------------------------- *)
+(* When the new step t' ends a stage of the documented transformation (t' - t0 a multiple of N, at most (nstages+1) N),
+   the line written is (lambda of the stage, S / (N - equil)) where S is the sum of dU/dlambda over the sampled steps of
+   the stage (steps t' - N < s <= t' with equil = 0 or (s - t0) mod N >= equil, each step once), and there are exactly
+   N - equil of them: the value is the MEAN of dU/dlambda over the stage's post-equilibration steps. *)
+Theorem C06_ti_stage_mean : forall T (O : NumOps T) (c : rcfg) (evs : list event) (xs : list T),
+  c_chg_k c = true -> c_chg_centers c = false -> (0 < c_nstages c)%Z -> (0 < c_nsteps c)%Z ->
+  (0 <= c_equil c < c_nsteps c)%Z -> evs <> [] ->
+  let m := run O c evs in
+  let t' := (m_it m + 1)%Z in
+  ((t' - c_it0 c) mod c_nsteps c = 0)%Z -> (t' - c_it0 c <= (c_nstages c + 1) * c_nsteps c)%Z ->
+  let hist := evs ++ [EStep xs] in
+  exists st out, m_outs (run O c hist) = m_outs m ++ [(t', st, out)] /\
+    o_log out = Some (stage_lambda O c ((t' - c_it0 c) / c_nsteps c - 1),
+                      ndiv O (ti_sum O c (t' - c_nsteps c) hist) (nofZ O (c_nsteps c - c_equil c))) /\
+    ti_cnt c (t' - c_nsteps c) hist = (c_nsteps c - c_equil c)%Z.
+Proof. intros T O c evs xs H1 H2 H3 H4 H5 H6. exact (ti_stage_mean O c H1 H2 H3 H4 H5 evs xs H6). Qed.
+Print Assumptions C06_ti_stage_mean.
 
-(* after the end of the force-constant schedule k no longer changes, yet W keeps growing *)
-Theorem C06_acc_work_k_refuted :
-  exists (c : @rcfg Q) evs1 evs2, c_chg_k c = true /\ c_nstages c = 0%Z /\ c_acc_work c = true /\
-    (c_it0 c + c_nsteps c <= m_it (run Qops c evs1))%Z /\
-    s_k (m_st (run Qops c (evs1 ++ evs2))) = s_k (m_st (run Qops c evs1)) /\
-    Qeq_bool (s_W (m_st (run Qops c (evs1 ++ evs2)))) (s_W (m_st (run Qops c evs1))) = false.
-Proof. exact work_k_refuted. Qed.
-Print Assumptions C06_acc_work_k_refuted.
+(* a dA/dLambda line is written only by a NEW step that ends a stage: once per stage, whatever the segmentation *)
+Theorem C06_ti_line_once_per_stage : forall T (O : NumOps T) (c : rcfg) (evs : list event) (e : event),
+  c_chg_k c = true -> c_chg_centers c = false -> (0 < c_nstages c)%Z -> (0 < c_nsteps c)%Z ->
+  (0 <= c_equil c < c_nsteps c)%Z -> evs <> [] ->
+  line_of O c evs e <> None ->
+  is_new (run O c evs) e = true /\ ((m_it (run O c evs) + 1 - c_it0 c) mod c_nsteps c = 0)%Z.
+Proof. intros T O c evs e H1 H2 H3 H4 H5 H6. exact (ti_line_only_at_stage_end O c H1 H2 H3 H4 H5 evs e H6). Qed.
+Print Assumptions C06_ti_line_once_per_stage.
 
-(* periodic variable: the interpolated centre moves from 2 to 5/2 at step 2, the increment used is 9/2 *)
-Theorem C06_acc_work_centers_periodic_refuted :
-  exists (c : @rcfg Q) evs, c_chg_centers c = true /\ c_nstages c = 0%Z /\ c_acc_work c = true /\
-    new_centers Qops c (ratio Qops 2 4) = [5#2]%Q /\ new_centers Qops c (ratio Qops 1 4) = [2]%Q /\
-    m_it (run Qops c evs) = 2%Z /\ s_incr (m_st (run Qops c evs)) = [9#2]%Q.
-Proof. exact work_centers_periodic_refuted. Qed.
-Print Assumptions C06_acc_work_centers_periodic_refuted.
-
-(* FULL STATEMENT (C06_ti_stage_mean): the value written at the end of a stage is the mean of dU/dlambda over
-   the stage's sampled steps.  With targetEquilSteps 0 the first stage sums the N+1 steps t0..t0+N (each
-   sample is 1 here) and divides by N = 3: 4/3 is written. *)
-Theorem C06_ti_stage_mean_refuted :
-  exists (c : @rcfg Q) evs o, c_chg_k c = true /\ c_equil c = 0%Z /\ c_nsteps c = 3%Z /\
-    Forall (fun e => match e with EStep _ => True | _ => False end) evs /\
-    (forall e, In e evs -> (dlambda_factor Qops c (stage_lambda Qops c 0) * dUdk_sum Qops c (init_state Qops c) (ev_xs e) == 1)%Q) /\
-    nth_error (m_outs (run Qops c evs)) 3 = Some o /\ o_log (snd o) = Some (0, 4#3)%Q.
-Proof. exact ti_first_stage_refuted. Qed.
-Print Assumptions C06_ti_stage_mean_refuted.
-
-(* ---- non-vacuity ------------------------------------------------------------------------------- *)
+(* ---- non-vacuity and regression examples (rational carrier, vm_compute) ------------------------- *)
 (* a 3-stage lambda schedule run in one segment reaches the last stage with the last force constant *)
 Example C06_example_three_stages :
   let c := mkCfg Harmonic [wv] [1%Q] false [1%Q] 2%Q true false 2%Q 4%Q 1%Q [0; 1#4; 1#2; 1]%Q 2%Z 3%Z 0%Z
                  false false false [0%Q] [0%Q] (-1)%Q (-1)%Q 0%Z in
   let evs := half_steps 8 in
-  c_chg_k c = true /\ Forall is_step evs /\ m_it (run Qops c evs) = 7%Z /\
+  c_chg_k c = true /\ m_it (run Qops c evs) = 7%Z /\
   s_stage (m_st (run Qops c evs)) = 3%Z /\ s_k (m_st (run Qops c evs)) = 4%Q /\
   stage_closed c 7 = 3%Z.
 Proof. vm_compute. repeat split; repeat constructor. Qed.
@@ -193,6 +252,50 @@ Example C06_example_continuous_segmented :
   closed_centers Qops c 2 = [2%Q].
 Proof. vm_compute. repeat split. Qed.
 
+(* the histories that broke the unrepaired code (k 2 -> 4, N 3, 2 stages; run boundary resp. restart exactly at the end of
+   stage 0): the stage advances once, k = 3 at step 3 *)
+Example C06_example_staged_k_boundary_and_restart :
+  s_k (m_st (run Qops (cfg_ks 1) (half_steps 4 ++ [EBoundary [1#2]%Q]))) = 3%Q /\
+  s_k (m_st (run Qops (cfg_ks 1) (half_steps 4 ++ [ERestart [1#2]%Q]))) = 3%Q /\
+  closed_k_staged Qops (cfg_ks 1) 3 = 3%Q /\
+  c_chg_k (cfg_ks 1) = true /\ c_chg_centers (cfg_ks 1) = false /\ (0 < c_nstages (cfg_ks 1))%Z /\ (0 <= c_equil (cfg_ks 1) < c_nsteps (cfg_ks 1))%Z.
+Proof. vm_compute. repeat split; discriminate. Qed.
+
+(* staged centres 1 -> 3 in 2 stages: a run boundary on the first step of a stage does not move them twice (N = 2),
+   and with targetNumSteps 1 they move at every step: 1, 1, 2, 3, 3 at steps 0..4 *)
+Example C06_example_staged_centres :
+  s_centers (m_st (run Qops (cfg_cs 2) (half_steps 2 ++ [EBoundary [1#2]%Q]))) = [1%Q] /\
+  map (fun n => s_centers (m_st (run Qops (cfg_cs 1) (half_steps n)))) [1; 2; 3; 4; 5]%nat = [[1]; [1]; [2]; [3]; [3]]%Q /\
+  c_chg_centers (cfg_cs 1) = true /\ c_chg_k (cfg_cs 1) = false /\ c_nsteps (cfg_cs 1) = 1%Z.
+Proof. vm_compute. repeat split. Qed.
+
+(* work of k 1 -> 3 in 2 steps stays at its final value after the schedule's end; work of a centre moving across the
+   wrapping boundary of a periodic variable uses increments of 1/2 *)
+Example C06_example_work :
+  s_W (m_st (run Qops cfg_kc (half_steps 3))) = 1%Q /\ s_W (m_st (run Qops cfg_kc (half_steps 6))) = 1%Q /\
+  s_incr (m_st (run Qops cfg_ccp (half_steps 3))) = [1#2]%Q /\
+  c_acc_work cfg_kc = true /\ c_acc_work cfg_ccp = true.
+Proof. vm_compute. repeat split. Qed.
+
+(* TI, no equilibration, dU/dlambda = 1 at every step: the first stage's line is (0, 1); with a run boundary inside the
+   stage (equil 1, N 3) the line of stage 0 is (0, 1) as well, and so it is with a restart *)
+Example C06_example_ti :
+  option_map (fun p => (fst p, Qred (snd p))) (o_log (snd (last (m_outs (run Qops (cfg_ks 0) (half_steps 4))) (0%Z, init_state Qops (cfg_ks 0), mkOut 0%Q [] None)))) = Some (0, 1)%Q /\
+  o_log (snd (last (m_outs (run Qops (cfg_ks 1) (half_steps 3 ++ [EBoundary [1#2]%Q; S (1#2)%Q]))) (0%Z, init_state Qops (cfg_ks 1), mkOut 0%Q [] None))) = Some (0, 1)%Q /\
+  o_log (snd (last (m_outs (run Qops (cfg_ks 1) (half_steps 3 ++ [ERestart [1#2]%Q; S (1#2)%Q]))) (0%Z, init_state Qops (cfg_ks 1), mkOut 0%Q [] None))) = Some (0, 1)%Q.
+Proof. vm_compute. repeat split. Qed.
+
 (* periodic harmonic: x = 3.5, c = 0, P = 4: shortest image is -0.5 *)
-Example C06_example_periodic : pshift Rops 4%R (3.5 - 0)%R = 1%Z.
+Example C06_example_periodic : RestraintModel.pshift Rops 4%R (3.5 - 0)%R = 1%Z.
 Proof. unfold pshift, half, nhalf; cbn. apply Zfloor_spec. simpl. lra. Qed.
+
+(* unit vectors and unit quaternions exist: premises of the manifold theorems are satisfiable *)
+Example C06_example_manifold : is_unit (0, 1, 0)%R /\ is_unit (1, 0, 0)%R /\ q_unit (1, 0, 0, 0)%R /\ q_unit (0, 0, 1, 0)%R.
+Proof. unfold is_unit, q_unit, v3norm2, v3dot, qdot; cbn. repeat split; lra. Qed.
+
+(* periodic walls: period 4, walls 1 and 2, x = 3.75: outside, the upper wall is 1.75 away, the lower one 1.25 (through
+   the boundary): premises of the "outside, lower wall closer" case are satisfiable *)
+Example C06_example_walls_closest :
+  let v := mkVar 1%R true 4%R 0%R in
+  (RestraintModel.pdiff Rops v 3.75 1 = -1.25 /\ RestraintModel.pdiff Rops v 3.75 2 = 1.75 /\ ~ exists n : Z, 1 <= 3.75 - IZR n * 4 <= 2)%R.
+Proof. exact example_walls_closest. Qed.
